@@ -1154,7 +1154,7 @@ int main(int argc, char** argv)
     }
 
   uint64_t unit = 0;
-  const int ngeo = ctx.thorough() ? NGEO : 2;
+  const int ngeo = ctx.thorough() ? NGEO : 3; // quick: the two non-TOF geometries and a reduced slice of the TOF geometry
   const int max_views[NGEO] = { 4, 6, 4, 8 };
   for (int gi = 0; gi < ngeo; ++gi)
     {
@@ -1173,6 +1173,12 @@ int main(int argc, char** argv)
                           {
                             // quick tier: reduced product on the second geometry
                             if (add == 1 || norm == 1 || norm == 2 || mseg == 1 || ns == 4 || ns == 5) continue;
+                          }
+                        if (!ctx.thorough() && gi == 2)
+                          {
+                            // quick tier, TOF geometry: symmetries on, additive none/labelled, normalisation none / non-TOF factors / TOF-dependent
+                            // factors, all segments, subset sensitivities, 1 and 2 subsets, TOF sensitivities off and on
+                            if (sym == 0 || add == 1 || norm == 1 || norm == 3 || zero == 1 || mseg != max_seg || usub == 0 || ns > 2) continue;
                           }
                         if (!ctx.mine(unit++)) continue;
                         if (ctx.expired()) goto done;
